@@ -395,7 +395,11 @@ class C19(Property):
         if results["eager"][0] != results["lazy"][0] or (results["eager"][0] == "ok" and results["eager"][1] != results["lazy"][1]):
             ctx.violation(f"{kind.split('[')[0]}-lazy-ne-eager-partition", c, {"eager": results["eager"][:2], "lazy": results["lazy"][:2]})
         elif results["eager"][0] == "err" and valid:
-            ctx.violation(f"{kind.split('[')[0]}-valid-chunks-rejected", c, {"eager": results["eager"]})
+            if c["kind"] == "grid" and c["endpoint"] and list(c["gpts"]) == [1, 1] and "extent must be positive" in results["eager"][2]:
+                # Grid reports sampling 0 for endpoint=True with one grid point (C17/F8): every block has end == start
+                ctx.violation("grid-single-point-endpoint-scan-cannot-be-partitioned", c, {"eager": results["eager"], "lazy": results["lazy"]})
+            else:
+                ctx.violation(f"{kind.split('[')[0]}-valid-chunks-rejected", c, {"eager": results["eager"]})
         # the raw partitioners with chunks that are not yet validated (None, ints): eager must accept what lazy accepts
         if c["kind"] == "images" and not c.get("lazy"):
             for ch in (None, 1, tuple(1 for _ in c["shape"])):
